@@ -71,6 +71,7 @@ m(["C06", "C07"], "atom-int-succeeds", "src/unifiable.rs",
   "                    Unifiable::LogicVar{id: _, name: _} => { other.unify(&self, ss) },\n                    Unifiable::Anonymous => { return Some(Rc::clone(ss)); },\n                    _ => None,\n                }\n            },\n            Unifiable::SFloat(self_float) => {",
   "                    Unifiable::LogicVar{id: _, name: _} => { other.unify(&self, ss) },\n                    Unifiable::Anonymous => { return Some(Rc::clone(ss)); },\n                    Unifiable::SInteger(_) => { return Some(Rc::clone(ss)); },\n                    _ => None,\n                }\n            },\n            Unifiable::SFloat(self_float) => {", "R1/off(Atom,SInteger)")
 m(["C06"], "copy-loop-skips-first", "src/unifiable.rs", "                for (i, item) in ss.iter().enumerate() {", "                for (i, item) in ss.iter().enumerate().skip(1) {", "R3/bind-copy")
+m(["C06"], "bind-length-off-by-one", "src/unifiable.rs", "                if id >= length_dst { length_dst = id + 1; }", "                if id > length_dst { length_dst = id + 1; }", "R3/bind-len")
 m(["C06"], "bind-at-wrong-index", "src/unifiable.rs", "                new_ss[id] = Some(Rc::new(other.clone()));", "                new_ss[length_dst - 1] = Some(Rc::new(other.clone()));", "R3/bind-one_store")
 m(["C06"], "complex-loop-forgets-set", "src/unifiable.rs", "                            if let Some(ss) = left.unify(&right, new_ss) {", "                            if let Some(ss) = left.unify(&right, ss) {", "R4/thread(SComplex)")
 m(["C07", "C09"], "anon-return-dropped", "src/unifiable.rs", "        if Unifiable::Anonymous == *other { return Some(Rc::clone(ss)); }", "        if Unifiable::Anonymous == *other { Some(Rc::clone(ss)); }", "R1")
